@@ -36,6 +36,7 @@ type RObj struct {
 	Val int
 	Ver int // user version counter (part of the desired state)
 	S   [2]reconciler.Status
+	SS  reconciler.StatusSet // used instead of S when the run uses status sets
 }
 
 func (o *RObj) TableHeader() []string { return []string{"ID", "Val"} }
@@ -122,6 +123,7 @@ type world struct {
 	yieldPct      int
 	healed        bool
 	cleanPacing   bool
+	statusSet     bool
 	initDone      func(statedb.WriteTxn)
 	initMarked    bool
 	longestDelay  time.Duration
@@ -143,6 +145,14 @@ type world struct {
 }
 
 func kindOf(s reconciler.Status) string { return s.Kind.String() }
+
+// statusOf returns reconciler i's status of the object.
+func (w *world) statusOf(o *RObj, i int) reconciler.Status {
+	if w.statusSet {
+		return o.SS.Get(fmt.Sprintf("r%d", i))
+	}
+	return o.S[i]
+}
 
 var hexRe = regexp.MustCompile(`0x[0-9a-f]+\??|\+0x[0-9a-f]+`)
 
@@ -226,6 +236,7 @@ func (w *world) run(full bool, tier string) {
 		w.nRecs = 2
 	}
 	w.batch = c.Choose(3) == 0
+	w.statusSet = c.Choose(3) == 0
 	w.roundSize = []int{1, 2, 3, 10, 1000}[c.Choose(5)]
 	w.roundEvery = []time.Duration{time.Millisecond, 10 * time.Millisecond, 100 * time.Millisecond}[c.Choose(3)]
 	w.minBackoff = []time.Duration{time.Millisecond, 10 * time.Millisecond, 100 * time.Millisecond, time.Second}[c.Choose(4)]
@@ -254,15 +265,15 @@ func (w *world) run(full bool, tier string) {
 		w.maxDelay = []time.Duration{time.Millisecond, 50 * time.Millisecond, 2 * time.Second}[c.Choose(3)]
 	}
 	if w.cleanPacing {
-		w.nIDs, w.nRecs, w.batch = 1, 1, false
+		w.nIDs, w.nRecs, w.batch, w.statusSet = 1, 1, false, false
 		w.roundSize = 1000
 		w.roundEvery = time.Millisecond
 		w.delayPct, w.yieldPct = 0, 0
 		w.pruneInterval = 0
 		w.failPct = 100
 	}
-	w.desc = fmt.Sprintf("prop=%s recs=%d batch=%v round=%d/%v backoff=%v..%v prune=%v refresh=%v ids=%d fail=%d%% delay=%d%%/%v yield=%d%% clean=%v strategy=%d",
-		w.prop, w.nRecs, w.batch, w.roundSize, w.roundEvery, w.minBackoff, w.maxBackoff, w.pruneInterval, w.refreshEvery, w.nIDs, w.failPct, w.delayPct, w.maxDelay, w.yieldPct, w.cleanPacing, cfg.Strategy)
+	w.desc = fmt.Sprintf("prop=%s recs=%d batch=%v round=%d/%v backoff=%v..%v prune=%v refresh=%v ids=%d fail=%d%% delay=%d%%/%v yield=%d%% clean=%v strategy=%d statusset=%v",
+		w.prop, w.nRecs, w.batch, w.roundSize, w.roundEvery, w.minBackoff, w.maxBackoff, w.pruneInterval, w.refreshEvery, w.nIDs, w.failPct, w.delayPct, w.maxDelay, w.yieldPct, w.cleanPacing, cfg.Strategy, w.statusSet)
 
 	s := simcore.NewSim(c, cfg)
 	w.S = s
@@ -361,8 +372,15 @@ func (w *world) setup(t *simcore.Task) {
 				}
 				rec, err := reconciler.Register[*RObj](params, w.table,
 					(*RObj).clone,
-					func(o *RObj, s reconciler.Status) *RObj { o.S[i] = s; return o },
-					func(o *RObj) reconciler.Status { return o.S[i] },
+					func(o *RObj, s reconciler.Status) *RObj {
+						if w.statusSet {
+							o.SS = o.SS.Set(fmt.Sprintf("r%d", i), s)
+						} else {
+							o.S[i] = s
+						}
+						return o
+					},
+					func(o *RObj) reconciler.Status { return w.statusOf(o, i) },
 					ops, bops, opts(i)...)
 				if err != nil {
 					regErr = err
@@ -467,7 +485,7 @@ func (w *world) userWrite(t *simcore.Task, only *uint64) {
 		if only != nil {
 			id = *only
 		}
-		_, _, exists := w.table.Get(wtxn, idIndex.Query(id))
+		existing, _, exists := w.table.Get(wtxn, idIndex.Query(id))
 		kind := c.Weighted([]int{6, 3, 1})
 		if w.cleanPacing {
 			kind = 0
@@ -486,6 +504,14 @@ func (w *world) userWrite(t *simcore.Task, only *uint64) {
 			o := &RObj{ID: id, Val: 1000*w.userVer + c.Choose(10), Ver: w.userVer}
 			for i := 0; i < w.nRecs; i++ {
 				o.S[i] = reconciler.StatusPending()
+			}
+			if w.statusSet {
+				// as applications do: a changed object re-uses its status set, marked pending again
+				if exists && kind != 2 {
+					o.SS = existing.SS.Pending()
+				} else {
+					o.SS = reconciler.NewStatusSet()
+				}
 			}
 			w.table.Insert(wtxn, o)
 			inserted[id] = true
@@ -532,8 +558,9 @@ func (w *world) onStep(ran *simcore.Task) {
 	for o, r := range w.table.All(rtxn) {
 		v := tver{val: o.Val, ver: o.Ver, rev: r, at: now}
 		for i := 0; i < 2; i++ {
-			v.kinds[i] = kindOf(o.S[i])
-			v.ids[i] = o.S[i].ID
+			st := w.statusOf(o, i)
+			v.kinds[i] = kindOf(st)
+			v.ids[i] = st.ID
 		}
 		next[o.ID] = v
 	}
@@ -689,7 +716,7 @@ type opsSeam struct {
 func (o *opsSeam) begin(obj *RObj, rev uint64, del bool) *attempt {
 	w := o.w
 	w.S.HookYield("op.begin")
-	st := obj.S[o.rc.idx]
+	st := w.statusOf(obj, o.rc.idx)
 	a := &attempt{rec: o.rc.idx, id: obj.ID, val: obj.Val, ver: obj.Ver, rev: rev, del: del, kind: kindOf(st), statusID: st.ID, start: w.S.Now(), seq: w.S.Seq()}
 	a.origRev = rev
 	if last := o.rc.last[obj.ID]; last != nil && !last.ok && last.ver == obj.Ver && last.del == del {
